@@ -646,6 +646,30 @@ func Leaves(full bool) []*Spec {
 	})
 	pe.Fault = true
 	add(pe)
+	// panic VALUES that are hard to render: an error whose own Error() panics (a typed nil pointer), a Stringer likewise
+	for _, hv := range []struct {
+		name string
+		v    interface{}
+	}{{"typed-nil-error", (*derefErrX)(nil)}, {"typed-nil-stringer", (*derefStrX)(nil)}, {"error-that-panics", boomErrX{}}} {
+		hv := hv
+		pe2 := leaf("error:Error()-panics-with-"+hv.name, func(k string) zapcore.Field { return zap.NamedError(k, panicsWith{hv.v}) }, func(k string, r Ref) []jsonx.Member {
+			return one(k+"Error", jsonx.Containing("PANIC="))
+		})
+		pe2.Fault = true
+		add(pe2)
+		ps2 := leaf("stringer:String()-panics-with-"+hv.name, func(k string) zapcore.Field { return zap.Stringer(k, panicsWith{hv.v}) }, func(k string, r Ref) []jsonx.Member {
+			return one(k+"Error", jsonx.Containing("PANIC="))
+		})
+		ps2.Fault = true
+		add(ps2)
+		pg2 := leaf("error:group-member-panics-with-"+hv.name, func(k string) zapcore.Field {
+			return zap.NamedError(k, groupErr{[]error{errors.New("ok1"), panicsWith{hv.v}, errors.New("ok2")}})
+		}, func(k string, r Ref) []jsonx.Member {
+			return []jsonx.Member{{Key: k, Val: jsonx.S("group failed")}, {Key: k + "Causes", Val: jsonx.AnyValue()}, {Key: k + "Error", Val: jsonx.Containing("PANIC=")}}
+		})
+		pg2.Fault = true
+		add(pg2)
+	}
 	var nilPE *ptrErr
 	npe := fixed("error:nil-pointer", func(k string) zapcore.Field { return zap.NamedError(k, nilPE) }, jsonx.S("<nil>"))
 	npe.Fault = true
@@ -683,7 +707,9 @@ func Leaves(full bool) []*Spec {
 	add(fixed("int32s", func(k string) zapcore.Field { return zap.Int32s(k, []int32{math.MinInt32, math.MaxInt32}) }, jsonx.A(I64(math.MinInt32), I64(math.MaxInt32))))
 	add(fixed("int16s", func(k string) zapcore.Field { return zap.Int16s(k, []int16{math.MinInt16, math.MaxInt16}) }, jsonx.A(I64(math.MinInt16), I64(math.MaxInt16))))
 	add(fixed("int8s", func(k string) zapcore.Field { return zap.Int8s(k, []int8{math.MinInt8, math.MaxInt8}) }, jsonx.A(I64(math.MinInt8), I64(math.MaxInt8))))
-	add(fixed("float32s", func(k string) zapcore.Field { return zap.Float32s(k, []float32{0.1, math.MaxFloat32, float32(math.Inf(-1))}) }, jsonx.A(F32(0.1), F32(math.MaxFloat32), jsonx.S("-Inf"))))
+	add(fixed("float32s", func(k string) zapcore.Field {
+		return zap.Float32s(k, []float32{0.1, math.MaxFloat32, float32(math.Inf(-1))})
+	}, jsonx.A(F32(0.1), F32(math.MaxFloat32), jsonx.S("-Inf"))))
 	add(fixed("complex64s", func(k string) zapcore.Field { return zap.Complex64s(k, []complex64{complex(0.1, -2), complex(3, 0)}) }, jsonx.A(jsonx.S(cplx(float64(float32(0.1)), -2, 32)), jsonx.S(cplx(3, 0, 32)))))
 	add(fixed("complex128s", func(k string) zapcore.Field { return zap.Complex128s(k, []complex128{complex(1, -1)}) }, jsonx.A(jsonx.S("1-1i"))))
 	add(fixed("stringers", func(k string) zapcore.Field { return zap.Stringers(k, []okStringer{{"a"}, {"\n"}}) }, jsonx.A(jsonx.S("a"), jsonx.S("\n"))))
@@ -778,3 +804,13 @@ type groupErr struct{ errs []error }
 
 func (g groupErr) Error() string   { return "group failed" }
 func (g groupErr) Errors() []error { return g.errs }
+
+// panicsWith panics with the given value from both Error() and String().
+type panicsWith struct{ v interface{} }
+
+func (p panicsWith) Error() string  { panic(p.v) }
+func (p panicsWith) String() string { panic(p.v) }
+
+type derefStrX struct{ s string }
+
+func (d *derefStrX) String() string { return d.s } // nil receiver: nil dereference
